@@ -2,7 +2,6 @@ package rewrite
 
 import (
 	"github.com/grafana/cog/internal/ast"
-	"github.com/grafana/cog/internal/tools"
 	"github.com/grafana/cog/internal/veneers/builder"
 	"github.com/grafana/cog/internal/veneers/option"
 )
@@ -88,6 +87,12 @@ func (engine *Rewriter) applyBuilderRules(schemas ast.Schemas, builders []ast.Bu
 }
 
 func (engine *Rewriter) applyOptionRules(schemas ast.Schemas, builders []ast.Builder, rules []option.RewriteRule) []ast.Builder {
+	// the builder of a struct whose fields are all fixed has no option to begin with
+	hadOptions := make([]bool, len(builders))
+	for i, b := range builders {
+		hadOptions[i] = len(b.Options) != 0
+	}
+
 	for _, rule := range rules {
 		for i, b := range builders {
 			processedOptions := make([]ast.Option, 0, len(b.Options))
@@ -105,10 +110,17 @@ func (engine *Rewriter) applyOptionRules(schemas ast.Schemas, builders []ast.Bui
 		}
 	}
 
-	return tools.Filter(builders, func(builder ast.Builder) bool {
-		// "no options" means that the builder was dismissed.
-		return len(builder.Options) != 0
-	})
+	remaining := make([]ast.Builder, 0, len(builders))
+	for i, b := range builders {
+		// "no options left" means that the builder was dismissed.
+		if len(b.Options) == 0 && hadOptions[i] {
+			continue
+		}
+
+		remaining = append(remaining, b)
+	}
+
+	return remaining
 }
 
 func (engine *Rewriter) debugBuilderRules() []builder.RewriteRule {
